@@ -48,12 +48,12 @@ extern "C" int vf_run_case(const uint8_t * data, size_t size)
    vf::BS bs(data, size);
    const int NT = 1+bs.u8()%3; const uint32 maxPool = bs.u8()%5;
    std::vector<std::vector<Op> > scripts(NT);
-   for (int t=0; t<NT; t++) {const uint32 n = 2+bs.u8()%7; for (uint32 i=0; i<n; i++) {Op o; o.op = bs.u8()%22; if (o.op >= 15) {static const uint8_t again[7] = {12, 14, 11, 15, 15, 16, 16}; o.op = again[o.op-15];} o.a = bs.u8()%3; o.b = bs.u8()%3; scripts[t].push_back(o);}}
+   for (int t=0; t<NT; t++) {const uint32 n = 2+bs.u8()%7; for (uint32 i=0; i<n; i++) {Op o; o.op = bs.u8()%24; if (o.op >= 15) {static const uint8_t again[9] = {12, 14, 11, 15, 15, 16, 16, 17, 17}; o.op = again[o.op-15];} o.a = bs.u8()%3; o.b = bs.u8()%3; scripts[t].push_back(o);}}
    char desc[120]; snprintf(desc, sizeof(desc), "%d thread(s), ObjectPool<Obj,128> maxPoolSize=%u", NT, maxPool);
    if (vf::Verbose()) fprintf(stderr, "config: %s\n", desc);
 
    g_ctor = g_dtor = 0; g_doubleReleases = 0;
-   uint32 genCounter = 1; uint32 crossThreadFinalRelease = 0, obtained = 0, heapObjs = 0, nonCountingPromoted = 0, drains = 0, neutralized = 0; uint64_t switches = 0, preempt = 0; std::vector<uint8_t> trace;
+   uint32 genCounter = 1; uint32 crossThreadFinalRelease = 0, obtained = 0, heapObjs = 0, nonCountingPromoted = 0, drains = 0, neutralized = 0, custody = 0; uint64_t switches = 0, preempt = 0; std::vector<uint8_t> trace;
    {
       vsched::ByteSource src(bs, 0x80); vsched::Scheduler sc(src); sc.SetContext(desc);
       Pool pool(maxPool);
@@ -127,6 +127,20 @@ extern "C" int vf_run_case(const uint8_t * data, size_t size)
                   if ((mine[a]())&&(counting[a])&&(j >= 0)) {mine[a].Neutralize(); expect[a] = 0; counting[a] = true; neutralized++; if (mine[a]() != NULL) vf::Fail("a neutralized Ref still points at an object");}
                }
                break;
+               case 17:                                                                                                              // the only reference there is stops counting: the object is now in the caller's own custody (documented: a non-counting Ref never releases), and is taken back under counting a moment later
+               {
+                  Obj * p = mine[a]();
+                  if ((p)&&(counting[a])&&(p->GetRefCount() == 1))
+                  {
+                     const uint32 g = p->gen, pl = p->payload;
+                     mine[a].SetRef(p, false); custody++;
+                     if ((p->magic != 0x0B1EC7ED)||(p->gen != g)||(p->payload != pl)||(p->inUse == false)) vf::Fail("an object whose last reference stopped counting (so that its owner keeps it by hand) was released all the same: gen %u -> %u, in use %d (%s)", g, p->gen, (int)p->inUse, desc);
+                     Obj * q = pool.ObtainObject(); if (q == p) vf::Fail("the pool handed out an object that its owner still holds by hand (%s)", desc); if (q) pool.ReleaseObject(q);
+                     if ((p->gen != g)||(p->inUse == false)) vf::Fail("an object held by hand changed under its owner (%s)", desc);
+                     mine[a].SetRef(p, true);
+                  }
+               }
+               break;
                case 14: if ((mine[a]())&&(counting[a] == false)) {mine[a].SetRef(mine[a](), true); counting[a] = true; nonCountingPromoted++;} break;    // start counting in place
             }
             // a non-counting reference may only be kept while a counting one of this thread holds the object
@@ -158,13 +172,23 @@ extern "C" int vf_run_case(const uint8_t * data, size_t size)
       (void) boxOwnerThread;
       pool.PerformSanityCheck();
       if (g_doubleReleases) vf::Fail("%u object(s) were released to the pool twice (%s)", g_doubleReleases, desc);
+      // the pool's own bookkeeping: everything has been released, so the pool is idle.  Obtaining and releasing one object over and over may at first trim slabs the history left
+      // in excess of the budget (one per cycle at most), but then it settles: a cycle on an idle pool that is within its budget constructs and destroys nothing -- the released
+      // object is kept for the next obtain, which is what the pool is for
+      {
+         int settledAfter = -1;
+         for (int cyc=0; cyc<40; cyc++) {const int c0 = g_ctor, d0 = g_dtor; Obj * p = pool.ObtainObject(); if (p == NULL) vf::Fail("ObtainObject failed on an idle pool"); pool.ReleaseObject(p); if ((g_ctor == c0)&&(g_dtor == d0)) {settledAfter = cyc; break;}}
+         if (settledAfter < 0) vf::Fail("an idle pool never settles: 40 obtain/release cycles of a single object each constructed or destroyed objects (%d constructed, %d destroyed so far; %s)", g_ctor, g_dtor, desc);
+         for (int cyc=0; cyc<4; cyc++) {const int c0 = g_ctor, d0 = g_dtor; Obj * p = pool.ObtainObject(); if (p == NULL) vf::Fail("ObtainObject failed on an idle pool"); pool.ReleaseObject(p); if ((g_ctor != c0)||(g_dtor != d0)) vf::Fail("an idle pool that had settled constructed %d and destroyed %d objects in one obtain/release cycle of a single object: released objects are not kept (%s)", g_ctor-c0, g_dtor-d0, desc);}
+         pool.PerformSanityCheck();
+      }
    }  // pool destructor MCRASHes if anything is still in use
    if (g_ctor != g_dtor) vf::Fail("%d objects constructed, %d destroyed after the pool is gone (%s)", g_ctor, g_dtor, desc);
 
    vf::Count("context_switches", switches); vf::Count("preemptions", preempt); vf::Count("objects_obtained", obtained); vf::Count("heap_objects", heapObjs);
    vf::Count((NT == 1) ? "case_single_threaded_history" : "case_multi_threaded");
-   if (crossThreadFinalRelease) vf::Count("case_final_release_by_another_thread"); if (nonCountingPromoted) vf::Count("case_non_counting_reference_switched_to_counting"); if (drains) vf::Count("case_pool_drained_in_mid_history"); if (neutralized) vf::Count("case_reference_neutralized");
+   if (crossThreadFinalRelease) vf::Count("case_final_release_by_another_thread"); if (nonCountingPromoted) vf::Count("case_non_counting_reference_switched_to_counting"); if (drains) vf::Count("case_pool_drained_in_mid_history"); if (custody) vf::Count("case_last_reference_stopped_counting_and_resumed"); if (neutralized) vf::Count("case_reference_neutralized");
    const bool nontrivial = (NT == 1) ? (obtained >= 2) : ((preempt >= 1)&&(crossThreadFinalRelease >= 1));
-   if (nontrivial) {uint64_t h = vf::HashStr(desc); for (size_t i=0; i<trace.size(); i++) h = vf::HashMix(h, trace[i]); for (int t=0; t<NT; t++) h = vf::Hash64(&scripts[t][0], scripts[t].size()*sizeof(Op), h); vf::NonTrivial(h); if (vf::WantSample()) {static const char * const N[] = {"copy", "reset", "obtain(pool)", "obtain(heap)", "swap", "publish", "take", "move-rotate", "const-cast", "temporaries", "clear-mailbox", "non-counting-ref", "assign-counting-to-non-counting", "stop-counting", "start-counting", "drain-pool", "neutralize"}; std::string s = std::string(desc)+":"; for (int t=0; t<NT; t++) {s += " T"+std::to_string(t)+"["; for (size_t k=0; k<scripts[t].size(); k++) {s += N[scripts[t][k].op]; s += " ";} s += "]";} vf::Sample(s+" | "+std::to_string(switches)+" switches, "+std::to_string(preempt)+" preemptions");}}
+   if (nontrivial) {uint64_t h = vf::HashStr(desc); for (size_t i=0; i<trace.size(); i++) h = vf::HashMix(h, trace[i]); for (int t=0; t<NT; t++) h = vf::Hash64(&scripts[t][0], scripts[t].size()*sizeof(Op), h); vf::NonTrivial(h); if (vf::WantSample()) {static const char * const N[] = {"copy", "reset", "obtain(pool)", "obtain(heap)", "swap", "publish", "take", "move-rotate", "const-cast", "temporaries", "clear-mailbox", "non-counting-ref", "assign-counting-to-non-counting", "stop-counting", "start-counting", "drain-pool", "neutralize", "custody"}; std::string s = std::string(desc)+":"; for (int t=0; t<NT; t++) {s += " T"+std::to_string(t)+"["; for (size_t k=0; k<scripts[t].size(); k++) {s += N[scripts[t][k].op]; s += " ";} s += "]";} vf::Sample(s+" | "+std::to_string(switches)+" switches, "+std::to_string(preempt)+" preemptions");}}
    return 0;
 }
